@@ -603,25 +603,37 @@ func vlLegacy(t *testing.T, F *vlNode, wb coin.Block, sec cipher.SecKey, keyOf m
 		}
 		return coin.SignedBlock{Block: *b, Sig: cipher.MustSignHash(b.HashHeader(), sec)}
 	}
-	spend := func(ux coin.UxOut, hours uint64) coin.Transaction {
+	spend := func(uxs []coin.UxOut, hours uint64) coin.Transaction {
 		var tx coin.Transaction
-		if err := tx.PushInput(ux.Hash()); err != nil {
-			t.Fatal(err)
+		var coins uint64
+		var keys []cipher.SecKey
+		for _, ux := range uxs {
+			if err := tx.PushInput(ux.Hash()); err != nil {
+				t.Fatal(err)
+			}
+			coins += ux.Body.Coins
+			keys = append(keys, keyOf[ux.Body.Address])
 		}
-		tx.Out = append(tx.Out, coin.TransactionOutput{Address: dst, Coins: ux.Body.Coins, Hours: hours})
-		tx.SignInputs([]cipher.SecKey{keyOf[ux.Body.Address]})
+		tx.Out = append(tx.Out, coin.TransactionOutput{Address: dst, Coins: coins, Hours: hours})
+		tx.SignInputs(keys)
 		if err := tx.UpdateHeader(); err != nil {
 			t.Fatal(err)
 		}
 		return tx
 	}
 	t1 := wb.Head.Time + 20*3600
-	if !offer("legacy-advance", hand(coin.Transactions{spend(sib, 0)}, t1), true, true, nil) {
+	adv := hand(coin.Transactions{spend([]coin.UxOut{sib}, 1)}, t1)
+	if !offer("legacy-advance", adv, true, true, nil) {
 		return
 	}
-	// at head time t1 the huge output has earned >= 20 hours: 2^64-1-e + 20 does not fit
-	if offer("legacy-overflow-input-hours-1", hand(coin.Transactions{spend(big, 1)}, t1+3600), true, true, nil) {
+	x := coin.CreateUnspents(adv.Head, adv.Body.Transactions[0])[0] // an ordinary output holding exactly 1 hour at head time t1
+	// at head time t1 the huge output has earned >= 20 hours: 2^64-1-e + 20 does not fit, so it counts as zero
+	if offer("legacy-overflow-input-hours-1", hand(coin.Transactions{spend([]coin.UxOut{big}, 1)}, t1+3600), true, true, nil) {
 		return
 	}
-	offer("legacy-overflow-input-hours-0", hand(coin.Transactions{spend(big, 0)}, t1+3600), true, true, nil)
+	// together with an ordinary input listed first: the inputs are worth 1 + 0 hours
+	if offer("legacy-overflow-input-hours-1", hand(coin.Transactions{spend([]coin.UxOut{x, big}, 2)}, t1+3600), true, true, nil) {
+		return
+	}
+	offer("legacy-overflow-input-hours-0", hand(coin.Transactions{spend([]coin.UxOut{x, big}, 1)}, t1+3600), true, true, nil)
 }
